@@ -64,19 +64,23 @@ Proof.
 Qed.
 
 (* ---------------------------------------------------------------- num_fri_layers *)
-Lemma nfl_loop_gen : forall fuel d m ff acc, ff <> 0 -> (Z.of_nat acc + Z.of_nat fuel < 2 ^ 64)%Z ->
+(* stated for ANY condition / body that are extensionally the loop's test and step, so that the tie survives `a > b` written
+   as `b < a` or the two statements of the body exchanged (seeded/harmless/H7) *)
+Lemma nfl_loop_gen : forall (c : Z * Z -> bool) (b : Z * Z -> Z * Z) m ff,
+  (forall ds r, c (ds, r) = Z.ltb (Z.of_nat m) ds) ->
+  (forall ds r, b (ds, r) = (Z.div ds (Z.of_nat ff), wrap 64 (Z.add r 1))) ->
+  forall fuel d acc, ff <> 0 -> (Z.of_nat acc + Z.of_nat fuel < 2 ^ 64)%Z ->
   option_map Z.of_nat (nfl_loop fuel d m ff acc)
-  = option_map snd
-      (while_loop fuel (fun '(domain_size, result) => Z.gtb domain_size (Z.of_nat m))
-         (fun '(domain_size, result) => (Z.div domain_size (Z.of_nat ff), wrap 64 (Z.add result 1)))
-         (Z.of_nat d, Z.of_nat acc)).
+  = option_map snd (while_loop fuel c b (Z.of_nat d, Z.of_nat acc)).
 Proof.
-  induction fuel as [|fuel IH]; intros d m ff acc Hff Hb; cbn [nfl_loop while_loop]; rewrite gtb_Z.
+  intros c b m ff Hc Hbd.
+  induction fuel as [|fuel IH]; intros d acc Hff Hb; cbn [nfl_loop while_loop]; rewrite Hc, <- Z.gtb_ltb, gtb_Z.
   - destruct (d <=? m); reflexivity.
   - destruct (d <=? m); cbn [negb]; [reflexivity|].
     destruct (ff =? 0) eqn:E0; [apply Nat.eqb_eq in E0; contradiction|].
-    rewrite IH by (try assumption; lia). rewrite <- Nat2Z.inj_div.
-    rewrite wrap_small by lia. replace (Z.of_nat acc + 1)%Z with (Z.of_nat (S acc)) by lia. reflexivity.
+    rewrite Hbd, <- Nat2Z.inj_div.
+    rewrite wrap_small by lia. replace (Z.of_nat acc + 1)%Z with (Z.of_nat (S acc)) by lia.
+    rewrite IH by (try assumption; lia). reflexivity.
 Qed.
 
 Theorem num_fri_layers_gen : forall o d, fo_folding o <> 0 ->
@@ -84,13 +88,18 @@ Theorem num_fri_layers_gen : forall o d, fo_folding o <> 0 ->
   option_map Z.of_nat (num_fri_layers o d) = fri_num_fri_layers (S d) (gopts o) (Z.of_nat d).
 Proof.
   intros o d Hff Hd Hm Hr. unfold num_fri_layers, fri_num_fri_layers, max_remainder_size, gopts, u64 in *.
-  cbn [go_remainder_max_degree go_blowup_factor go_folding_factor].
-  rewrite (nfl_loop_gen (S d) d _ (fo_folding o) 0 Hff) by lia.
+  cbn [go_remainder_max_degree go_blowup_factor go_folding_factor]. cbv zeta.
   replace (wrap 64 (wrap 64 (Z.of_nat (fo_remmax o) + 1) * Z.of_nat (fo_blowup o)))
     with (Z.of_nat ((fo_remmax o + 1) * fo_blowup o)).
   2:{ rewrite (wrap_small (Z.of_nat (fo_remmax o) + 1)) by lia. rewrite wrap_small by lia. lia. }
-  change (Z.of_nat 0) with 0%Z.
-  destruct (while_loop _ _ _ _) as [[ds res]|]; reflexivity.
+  match goal with |- _ = match while_loop _ ?c ?b _ with _ => _ end =>
+    rewrite (nfl_loop_gen c b ((fo_remmax o + 1) * fo_blowup o) (fo_folding o))
+  end.
+  - change (Z.of_nat 0) with 0%Z. destruct (while_loop _ _ _ _) as [[ds res]|]; reflexivity.
+  - intros ds r. rewrite ?Z.gtb_ltb. reflexivity.
+  - intros ds r. reflexivity.
+  - exact Hff.
+  - lia.
 Qed.
 
 (* ---------------------------------------------------------------- FriProof::parse_layers: guard and division *)
